@@ -418,6 +418,86 @@ func c12Pipelined(srvMsize, cliMsize uint32, dotu bool) Scenario {
 	}}
 }
 
+// c12RefusedVersion: a Tversion the server refuses (msize too small to carry an I/O
+// header) changes nothing - in particular not the dialect negotiated before. The
+// replies that follow are byte for byte those of a session without it.
+func c12RefusedVersion(srvDotu bool) Scenario {
+	name := fmt.Sprintf("refused-version-changes-nothing server-dotu=%v", srvDotu)
+	return Scenario{Name: name, Run: func(rc *RunCtx) *Result {
+		res := &Result{Exhaustive: true}
+		seen := map[string]bool{}
+		session := func(ver1 string, refused *wire.Msg) (string, string) {
+			var out, bad string
+			body := func() {
+				fs := NewFS()
+				h := NewSrvH(fs, SrvOpt{Msize: 8216, Dotu: srvDotu})
+				c := h.Connect()
+				r := c.Version(1024, ver1)
+				if r == nil || r.Type != wire.Rversion {
+					bad = fmt.Sprintf("Tversion(%s) answered by %v", ver1, r)
+					return
+				}
+				dotu := c.Dotu
+				c.Rpc(tattach(1, 0, wire.NOFID, "glenda", 7, dotu))
+				if refused != nil {
+					before := len(c.Collect())
+					c.SendRaw(wire.Encode(refused, false))
+					vs.Idle()
+					fr := c.Collect()[before:]
+					// the refusal itself may be in either encoding of Rerror; it must be a refusal
+					if len(fr) != 1 || len(fr[0].Raw) < 7 || fr[0].Raw[4] != wire.Rerror {
+						bad = fmt.Sprintf("Tversion with msize %d was not refused with an Rerror (%d frames)", refused.Msize, len(fr))
+						return
+					}
+				}
+				n0 := len(c.Collect())
+				fs.Script[reqKey{0, 20, 0}] = &Action{StatName: "a-name"}
+				c.Send(dotu, &wire.Msg{Type: wire.Tstat, Tag: 20, Fid: 0})
+				vs.Idle()
+				c.Send(dotu, twalk(21, 0, 5, "does-not-exist"))
+				vs.Idle()
+				fs.Script[reqKey{0, 22, 0}] = &Action{Err: "scripted"}
+				c.Send(dotu, &wire.Msg{Type: wire.Tstat, Tag: 22, Fid: 0})
+				vs.Idle()
+				for _, f := range c.Collect()[n0:] {
+					out += fmt.Sprintf("%x;", f.Raw)
+				}
+			}
+			x := vs.Run(nil, body, vs.Options{})
+			if len(x.Panics) > 0 {
+				bad = "panic: " + x.Panics[0].Value
+			}
+			return out, bad
+		}
+		for _, ver1 := range []string{"9P2000", "9P2000.u"} {
+			ref, bad := session(ver1, nil)
+			if bad != "" || ref == "" {
+				res.Findings = append(res.Findings, Finding{Sig: "C12/refused-version/control-run-failed", Msg: bad})
+				continue
+			}
+			for _, ms := range []uint32{0, 1, 23} {
+				for _, ver2 := range []string{"9P2000", "9P2000.u", "9P2000.L", "nonsense", ""} {
+					got, bad := session(ver1, &wire.Msg{Type: wire.Tversion, Tag: wire.NOTAG, Msize: ms, Version: ver2})
+					res.Evals++
+					res.Nontrivial++
+					if bad == "" && got != ref {
+						bad = fmt.Sprintf("after a refused Tversion(msize %d, %q) on a %s connection the replies differ from a session without it:\n  got  %s\n  want %s", ms, ver2, ver1, got, ref)
+					}
+					if bad != "" {
+						sig := "C12/refused-version/" + sigWords(bad)
+						if !seen[sig] {
+							seen[sig] = true
+							res.Findings = append(res.Findings, Finding{Sig: sig, Msg: name + ": " + bad})
+						}
+					}
+				}
+			}
+		}
+		res.Samples = append(res.Samples, "negotiate (2 versions), attach, refused Tversion msize {0,1,23} x 5 version strings, then Rstat / Rerror replies compared with the session without it")
+		return res
+	}}
+}
+
 func onlyConnEntries(es []Entry) bool {
 	for _, e := range es {
 		if e.Kind != "connclose" && e.Kind != "destroy" && e.Kind != "connopen" {
@@ -452,6 +532,7 @@ func c12Scenarios(tier string) []Scenario {
 	for _, pr := range [][2]uint32{{8216, 64}, {8216, 256}, {256, 8216}, {65560, 4120}} {
 		out = append(out, c12Pipelined(pr[0], pr[1], false), c12Pipelined(pr[0], pr[1], true))
 	}
+	out = append(out, c12RefusedVersion(false), c12RefusedVersion(true))
 	out = append(out, c12ClientScenarios(tier)...)
 	return out
 }
@@ -459,7 +540,7 @@ func c12Scenarios(tier string) []Scenario {
 func init() {
 	register(&Property{ID: "C12", Level: "exploration",
 		Technique: "bounded-exhaustive enumeration of negotiation configurations and reply forms, executed on the real server and client under the controlled scheduler",
-		Rule:      "grid server msize {0,23,24,25,32,256,8216,65560,2^20+24} x client msize {0,23,24,25,32,256,8216,65560,2^20+24,2^31,2^32-1, server +-1} x server dialect x 7 version strings; after negotiation Rstat with 0..300-byte names, Rerror with 0..300-byte text, Rwalk 0..16 qids, Rread 0,1,L-1,L - each as first request after Tversion and after a renegotiation, 4 dialect combinations, 5 (thorough 10) msize pairs; announced frame sizes {0..8, msize-1, msize, msize+1, 2*msize, 8*msize+1, 2^16, 2^31, 2^32-1} header-only and full; Tversion pipelined with Tattach and a third frame (oversize Twrite, long Rstat/Rerror, reads at the limit) in one write and in two, 4 msize pairs x dialect; client direction: Connect against a scripted peer over the same grid. distinct = configurations executed",
+		Rule:      "grid server msize {0,23,24,25,32,256,8216,65560,2^20+24} x client msize {0,23,24,25,32,256,8216,65560,2^20+24,2^31,2^32-1, server +-1} x server dialect x 7 version strings; after negotiation Rstat with 0..300-byte names, Rerror with 0..300-byte text, Rwalk 0..16 qids, Rread 0,1,L-1,L - each as first request after Tversion and after a renegotiation, 4 dialect combinations, 5 (thorough 10) msize pairs; announced frame sizes {0..8, msize-1, msize, msize+1, 2*msize, 8*msize+1, 2^16, 2^31, 2^32-1} header-only and full; Tversion pipelined with Tattach and a third frame (oversize Twrite, long Rstat/Rerror, reads at the limit) in one write and in two, 4 msize pairs x dialect; a refused Tversion (msize 0/1/23 x 5 version strings) in mid-session leaves dialect and replies unchanged; client direction: Connect against a scripted peer over the same grid. distinct = configurations executed",
 		Assumptions: []string{"server msize above 2^20+24 is not instantiated (8 x msize receive buffer per connection)", "the framework is not required to police an implementation that returns more data than asked"},
 		Scenarios:   c12Scenarios, QuickS: 100, ThoroughS: 600})
 }
